@@ -437,6 +437,11 @@ func initEnv() (*env, error) {
 
 // newScriptedDownstream builds what activeListener.OnNewConnection builds, around a scripted net.Conn:
 // the real server connection, the real tcp_proxy filter from its registered factory, InitializeReadFilters, Start.
+var (
+	tcpFactoryMu sync.Mutex
+	tcpFactories = map[string]api.NetworkFilterChainFactory{}
+)
+
 func (e *env) newScriptedDownstreamWith(sc *sconn, rec *evRec, tr *traceRec, clusterName string) (api.Connection, error) {
 	ctx := variable.NewVariableContext(context.Background())
 	_ = variable.Set(ctx, types.VariableAccessLogs, []api.AccessLog{})
@@ -447,10 +452,20 @@ func (e *env) newScriptedDownstreamWith(sc *sconn, rec *evRec, tr *traceRec, clu
 		conn.AddConnectionEventListener(tr)
 		conn.FilterManager().AddReadFilter(tr)
 	}
-	f, err := api.CreateNetworkFilterChainFactory(v2.TCP_PROXY, map[string]interface{}{"cluster": clusterName})
-	if err != nil {
-		return nil, err
+	// ONE filter factory per cluster for all scripted cases (as a listener has): whatever a session leaves behind in the
+	// factory or its config would be seen by the next one
+	tcpFactoryMu.Lock()
+	f, ok := tcpFactories[clusterName]
+	if !ok {
+		var err error
+		f, err = api.CreateNetworkFilterChainFactory(v2.TCP_PROXY, map[string]interface{}{"cluster": clusterName})
+		if err != nil {
+			tcpFactoryMu.Unlock()
+			return nil, err
+		}
+		tcpFactories[clusterName] = f
 	}
+	tcpFactoryMu.Unlock()
 	f.CreateFilterChain(ctx, conn.FilterManager())
 	conn.FilterManager().InitializeReadFilters()
 	conn.Start(ctx)
